@@ -58,6 +58,12 @@ def build_module_case(seed, k):
     rng = np.random.default_rng(common.case_seed(PROP, 'mod', seed, k))
     name = names[k % len(names)]
     dim = int(rng.integers(1, 4))
+    # every equation is met in three dimensions first (all components of
+    # the pair force and of the torque are live there), then in one or two
+    if k < len(names):
+        dim = 3
+    elif k < 2 * len(names):
+        dim = 1 + (k + seed) % 2
     kn = evalkit.kernels()
     while True:
         kname = str(rng.choice(kn))
@@ -274,7 +280,7 @@ def density_work(item):
 def run(tier):
     T = common.Timer()
     seed = common.seed()
-    nmod = len(EQS) if tier == 'quick' else 6 * len(EQS)
+    nmod = 2 * len(EQS) if tier == 'quick' else 6 * len(EQS)
     ndata = 16 if tier == 'quick' else 100
     items = [dict(seed=seed, mod=build_module_case(seed, k), ndata=ndata,
                   flavour='plain', timeout=1800) for k in range(nmod)]
